@@ -287,4 +287,164 @@ theorem parStep_reset_irrelevant (ops : Ops F64 R Q U) (sched : Scheduler) (k : 
 
 end Cache
 
+/-! ## The caches stay valid: `ham_eq` depends only on a signature that no step changes -/
+section CachePreserve
+variable {F64 R Q U H : Type}
+
+/-- `ham_eq` compares Hamiltonian parameters (`sig`), and neither `set_op_cutoff` nor `swap_graphs` (which exchanges
+op managers and states only) changes them. -/
+structure HamStable (ops : Ops F64 R Q U) (sig : Q → H) (eqH : H → H → Bool) : Prop where
+  hamEq_sig : ∀ a b, ops.hamEq a b = eqH (sig a) (sig b)
+  sig_setCutoff : ∀ c q, sig (ops.setCutoff c q) = sig q
+  sig_swap : ∀ a b u e, sig (ops.swapOn a b u e).1.1 = sig a.1 ∧ sig (ops.swapOn a b u e).2.1.1 = sig b.1
+
+def sigs (sig : Q → H) (l : List (Q × F64)) : List H := l.map (fun g => sig g.1)
+
+theorem eqsOf_congr {ops : Ops F64 R Q U} {sig : Q → H} {eqH : H → H → Bool} (hs : HamStable ops sig eqH) :
+    ∀ (l l' : List (Q × F64)), sigs sig l = sigs sig l' → eqsOf ops l = eqsOf ops l'
+  | a :: b :: rest, l', h => by
+    match l', h with
+    | a' :: b' :: rest', h =>
+      simp only [sigs, List.map_cons, List.cons.injEq] at h
+      obtain ⟨ha, hb, hr⟩ := h
+      simp only [eqsOf, hs.hamEq_sig, ha, hb]
+      rw [eqsOf_congr hs rest rest' hr]
+    | [a'], h => simp [sigs] at h
+    | [], h => simp [sigs] at h
+  | [a], l', h => by
+    match l', h with
+    | [a'], _ => simp [eqsOf]
+    | [], h => simp [sigs] at h
+    | _ :: _ :: _, h => simp [sigs] at h
+  | [], l', h => by
+    match l', h with
+    | [], _ => rfl
+    | _ :: _, h => simp [sigs] at h
+
+theorem sigs_length (sig : Q → H) (l : List (Q × F64)) : (sigs sig l).length = l.length := by simp [sigs]
+
+theorem sigs_firstSub (sig : Q → H) (l l' : List (Q × F64)) (h : sigs sig l = sigs sig l') :
+    sigs sig (firstSub l).1 = sigs sig (firstSub l').1 := by
+  have hl : l.length = l'.length := by rw [← sigs_length sig l, h, sigs_length]
+  simp only [firstSub, sigs, List.map_take] at *
+  rw [h, hl]
+
+theorem sigs_secondSub (sig : Q → H) (l l' : List (Q × F64)) (h : sigs sig l = sigs sig l') :
+    sigs sig (secondSub l).2.1 = sigs sig (secondSub l').2.1 := by
+  have hl : l.length = l'.length := by rw [← sigs_length sig l, h, sigs_length]
+  simp only [secondSub, sigs] at *
+  rw [hl]
+  split <;> simp only [List.map_take, List.map_drop, h]
+
+theorem firstSub_append {α : Type} (l : List α) : (firstSub l).1 ++ (firstSub l).2 = l := by
+  simp [firstSub]
+
+theorem secondSub_append {α : Type} (l : List α) :
+    (secondSub l).1 ++ (secondSub l).2.1 ++ (secondSub l).2.2 = l := by
+  unfold secondSub
+  split
+  · simp only [List.append_nil]
+    exact List.take_append_drop 1 l
+  · rename_i h
+    rcases l with _ | ⟨a, l⟩
+    · rfl
+    · simp only [List.length_cons, List.take_succ_cons, List.take_zero, List.drop_succ_cons, List.drop_zero,
+        Nat.add_sub_cancel, List.cons_append, List.nil_append, List.cons.injEq, true_and]
+      have : l.length - 1 + 1 = l.length := by
+        simp only [List.length_cons] at h
+        omega
+      have h2 : List.drop l.length (a :: l) = List.drop (l.length - 1) l := by
+        conv_lhs => rw [← this]
+        rfl
+      rw [h2, show l.length + 1 - 2 = l.length - 1 by omega, List.take_append_drop]
+
+theorem performSwaps_sigs {ops : Ops F64 R Q U} {sig : Q → H} {eqH : H → H → Bool} (hs : HamStable ops sig eqH) :
+    ∀ (r : R) (l : List (Q × F64)) (eqs : List Bool), sigs sig (performSwaps ops r l eqs).1 = sigs sig l
+  | r, a :: b :: rest, [] => by simp [performSwaps]
+  | r, a :: b :: rest, eq :: eqs' => by
+    have ih := performSwaps_sigs hs (ops.genUnif r).2 rest eqs'
+    have h2 := hs.sig_swap a b (ops.genUnif r).1 (!eq)
+    simp only [performSwaps, sigs, List.map_cons] at *
+    rw [ih, h2.1, h2.2]
+  | r, [a], eqs => by simp [performSwaps]
+  | r, [], eqs => by simp [performSwaps]
+
+/-- a swap routine that keeps the signatures in place -/
+def KeepsSigs (sig : Q → H) (sw : R → List (Q × F64) → List Bool → List (Q × F64) × R × Nat) : Prop :=
+  ∀ r l eqs, sigs sig (sw r l eqs).1 = sigs sig l
+
+theorem sigs_append (sig : Q → H) (l l' : List (Q × F64)) : sigs sig (l ++ l') = sigs sig l ++ sigs sig l' := by
+  simp [sigs]
+
+theorem phaseA_keeps {sig : Q → H} {sw} (h : KeepsSigs (F64 := F64) sig sw) (s : TC F64 R Q × R) :
+    sigs sig (phaseA sw s).1.graphs = sigs sig s.1.graphs ∧
+    (phaseA sw s).1.graph_ham_eq_a = s.1.graph_ham_eq_a ∧ (phaseA sw s).1.graph_ham_eq_b = s.1.graph_ham_eq_b := by
+  refine ⟨?_, rfl, rfl⟩
+  have h' : ∀ r l eqs, sigs sig (sw r l eqs).1 = sigs sig l := h
+  simp only [phaseA, sigs_append, h']
+  rw [← sigs_append, firstSub_append]
+
+theorem phaseB_keeps {sig : Q → H} {sw} (h : KeepsSigs (F64 := F64) sig sw) (s : TC F64 R Q × R) :
+    sigs sig (phaseB sw s).1.graphs = sigs sig s.1.graphs ∧
+    (phaseB sw s).1.graph_ham_eq_a = s.1.graph_ham_eq_a ∧ (phaseB sw s).1.graph_ham_eq_b = s.1.graph_ham_eq_b := by
+  refine ⟨?_, rfl, rfl⟩
+  have h' : ∀ r l eqs, sigs sig (sw r l eqs).1 = sigs sig l := h
+  simp only [phaseB, sigs_append, h']
+  rw [← sigs_append, ← sigs_append, secondSub_append]
+
+theorem rest_keeps {ops : Ops F64 R Q U} {sig : Q → H} {setAll swA swB}
+    (hset : ∀ c l, sigs sig (setAll c l) = sigs sig l)
+    (hA : KeepsSigs sig swA) (hB : KeepsSigs sig swB) (tc : TC F64 R Q) :
+    sigs sig (temperingRest ops setAll swA swB tc).graphs = sigs sig tc.graphs ∧
+    (temperingRest ops setAll swA swB tc).graph_ham_eq_a = tc.graph_ham_eq_a ∧
+    (temperingRest ops setAll swA swB tc).graph_ham_eq_b = tc.graph_ham_eq_b := by
+  unfold temperingRest
+  simp only
+  split
+  · exact ⟨hset _ _, rfl, rfl⟩
+  · rename_i r hr
+    have h1 := phaseA_keeps hA ({ tc with graphs := setAll (maxCutoff ops tc.graphs) tc.graphs }, (ops.genHalf r).2)
+    have h2 := phaseB_keeps hB (phaseA swA ({ tc with graphs := setAll (maxCutoff ops tc.graphs) tc.graphs }, (ops.genHalf r).2))
+    have h3 := phaseB_keeps hB ({ tc with graphs := setAll (maxCutoff ops tc.graphs) tc.graphs }, (ops.genHalf r).2)
+    have h4 := phaseA_keeps hA (phaseB swB ({ tc with graphs := setAll (maxCutoff ops tc.graphs) tc.graphs }, (ops.genHalf r).2))
+    split
+    · simp only
+      exact ⟨by rw [h2.1, h1.1]; exact hset _ _, by rw [h2.2.1, h1.2.1], by rw [h2.2.2, h1.2.2]⟩
+    · simp only
+      exact ⟨by rw [h4.1, h3.1]; exact hset _ _, by rw [h4.2.1, h3.2.1], by rw [h4.2.2, h3.2.2]⟩
+
+theorem cacheValid_makeHamEqualities (ops : Ops F64 R Q U) (tc : TC F64 R Q) :
+    CacheValid ops (makeHamEqualities ops tc) := ⟨Or.inr rfl, Or.inr rfl⟩
+
+theorem body_cacheValid {ops : Ops F64 R Q U} {sig : Q → H} {eqH : H → H → Bool} (hs : HamStable ops sig eqH)
+    {setAll swA swB} (hset : ∀ c l, sigs sig (setAll c l) = sigs sig l)
+    (hA : KeepsSigs sig swA) (hB : KeepsSigs sig swB) (tc : TC F64 R Q) (h : CacheValid ops tc) :
+    CacheValid ops (temperingBody ops setAll swA swB tc) := by
+  unfold temperingBody
+  rw [ensure_of_valid ops tc h]
+  obtain ⟨hg, ha, hb⟩ := rest_keeps (ops := ops) hset hA hB (makeHamEqualities ops tc)
+  have hg' : sigs sig (temperingRest ops setAll swA swB (makeHamEqualities ops tc)).graphs = sigs sig tc.graphs := hg
+  constructor
+  · right
+    rw [ha]
+    show some (eqsOf ops (firstSub tc.graphs).1) = _
+    rw [eqsOf_congr hs _ _ (sigs_firstSub sig _ _ hg')]
+  · right
+    rw [hb]
+    show some (eqsOf ops (secondSub tc.graphs).2.1) = _
+    rw [eqsOf_congr hs _ _ (sigs_secondSub sig _ _ hg')]
+
+theorem setAllSerial_sigs {ops : Ops F64 R Q U} {sig : Q → H} {eqH : H → H → Bool} (hs : HamStable ops sig eqH)
+    (c : Nat) (l : List (Q × F64)) : sigs sig (setAllSerial ops c l) = sigs sig l := by
+  simp [sigs, setAllSerial, hs.sig_setCutoff]
+
+theorem step_cacheValid {ops : Ops F64 R Q U} {sig : Q → H} {eqH : H → H → Bool} (hs : HamStable ops sig eqH)
+    (tc : TC F64 R Q) (h : CacheValid ops tc) : CacheValid ops (temperingStep ops tc) := by
+  unfold temperingStep
+  split
+  · exact h
+  · exact body_cacheValid hs (setAllSerial_sigs hs) (performSwaps_sigs hs) (performSwaps_sigs hs) tc h
+
+end CachePreserve
+
 end Qmc.Snap
